@@ -553,7 +553,7 @@ func (c *Ctx) joinPaths(entry *State, base int, rs []*State, vals [][]Val) (*Sta
 			keys[k2] = true
 		}
 	}
-	for k2 := range keys {
+	for _, k2 := range sortedKeys(keys) {
 		as, ok := heapSorts[k2]
 		if !ok {
 			return nil, nil, false
@@ -571,7 +571,7 @@ func (c *Ctx) joinPaths(entry *State, base int, rs []*State, vals [][]Val) (*Sta
 			gk[g] = true
 		}
 	}
-	for g := range gk {
+	for _, g := range sortedKeys(gk) {
 		ts := make([]string, n)
 		var sort Sort
 		for i, r := range rs {
